@@ -153,7 +153,9 @@ std::string pathOf(Ctx& X, const Expr* E, int depth) {
   if (auto* c = dyn_cast<MaterializeTemporaryExpr>(E)) return pathOf(X, c->getSubExpr(), depth + 1);
   if (auto* c = dyn_cast<CXXOperatorCallExpr>(E)) {
     if ((c->getOperator() == OO_Star || c->getOperator() == OO_Arrow) && c->getNumArgs() == 1) return pathOf(X, c->getArg(0), depth + 1);
+    if (c->getOperator() == OO_Subscript && c->getNumArgs() == 2) return pathOf(X, c->getArg(0), depth + 1) + "[]";
   }
+  if (auto* as = dyn_cast<ArraySubscriptExpr>(E)) return pathOf(X, as->getLHS(), depth + 1) + "[]";
   if (auto* c = dyn_cast<CallExpr>(E)) {
     std::string n = calleeName(X, c->getCallee());
     if (isTransparent(n) && c->getNumArgs() >= 1) return pathOf(X, c->getArg(0), depth + 1);
